@@ -398,6 +398,15 @@ def measure (o : Opts) (code : List Char) (maxWidth : Nat) : Nat × Nat :=
   | some w => (numbersColumnWidth o code, w + numbersColumnWidth o code)
   | none => (numbersColumnWidth o code, maxWidth)
 
+/-- `Syntax.__rich_measure__` with its variant flag.
+`short = true`:  rich 9.10.0 as found — with an explicit `code_width` the maximum is `code_width + numbers_column_width`,
+                 one cell less than a numbered row takes (the blank after the number is forgotten);
+`short = false`: repaired (pending_fixes/C09-syntax-measure-one-short.diff): `+ 1` when line numbers are shown. -/
+def measureV (short : Bool) (o : Opts) (code : List Char) (maxWidth : Nat) : Nat × Nat :=
+  match o.codeWidth with
+  | some w => (numbersColumnWidth o code, w + numbersColumnWidth o code + (if !short && o.lineNumbers then 1 else 0))
+  | none => (numbersColumnWidth o code, maxWidth)
+
 /-! ### the domain in which `render` is claimed to equal the implementation -/
 
 def hasZeroWidth (cw : Char → Nat) (l : Line) : Bool := l.any (fun c => cw c == 0)
